@@ -1,6 +1,6 @@
 use std::sync::Arc;
 
-use anyhow::Result;
+use anyhow::{bail, Result};
 
 use crate::{
     ast::{
@@ -49,7 +49,20 @@ impl ClassBody {
         let mut fields = vec![];
 
         for member in features {
-            let ty = ClassFeature::type_from_node(&member)?;
+            let ty: Ident = ClassFeature::type_from_node(&member)?;
+
+            // a second constructor is reported by `Parser::class_body`
+            if member.as_rule() != Rule::class_constructor
+                && fields.iter().any(|field: &Ident| field.name() == ty.name())
+            {
+                // the class's type answers with the first declaration, its code with the last
+                bail!(new_err(
+                    member.as_span(),
+                    &input.user_data().get_source_file_name(),
+                    format!("this class already has a member named `{}`", ty.name()),
+                ))
+            }
+
             fields.push(ty);
         }
 
